@@ -164,13 +164,26 @@ static int views_ok(const carquet_byte_array_t* v, int64_t n, const uint8_t* bas
     return 1;
 }
 
+
+/* " v=a,b,c" for at most 64 values (the model tie compares them) */
+static void vals_u32(char* dst, size_t dsz, const uint32_t* v, int64_t n) {
+    if (n > 64) { dst[0] = 0; return; }
+    size_t k = (size_t)snprintf(dst, dsz, " v=%s", n == 0 ? "-" : "");
+    for (int64_t i = 0; i < n && k + 16 < dsz; i++) k += (size_t)snprintf(dst + k, dsz - k, "%s%u", i ? "," : "", v[i]);
+}
+static void vals_i16(char* dst, size_t dsz, const int16_t* v, int64_t n) {
+    if (n > 64) { dst[0] = 0; return; }
+    size_t k = (size_t)snprintf(dst, dsz, " v=%s", n == 0 ? "-" : "");
+    for (int64_t i = 0; i < n && k + 16 < dsz; i++) k += (size_t)snprintf(dst + k, dsz - k, "%s%d", i ? "," : "", (int)v[i]);
+}
+
 typedef struct {
     const char* op; int64_t p; int64_t count; size_t cap; int has_cap;
     const char* hex; const char* hex2;
 } kase;
 
 /* result of one execution */
-typedef struct { char line[512]; } result;
+typedef struct { char line[1024]; } result;
 
 #define RES(...) snprintf(r->line, sizeof r->line, __VA_ARGS__)
 
@@ -191,7 +204,7 @@ static void run_case(const kase* k, result* r, size_t* a0, size_t* a1) {
         BEGIN(); int64_t got = carquet_rle_decode_all(in, n, (int)k->p, o.p, count); END();
         if (got < 0) RES("ERR %" PRId64, got);
         else if (got > (count > 0 ? count : 0)) RES("VIOL count-exceeds-max %" PRId64 " > %" PRId64, got, count);
-        else RES("OK %" PRId64, got);
+        else { char vb[700]; vals_u32(vb, sizeof vb, o.p, got); RES("OK %" PRId64 "%s", got, vb); }
     } else if (!strcmp(op, "rle_stream")) {
         /* the streaming decoder: get_batch / skip / get interleaved, at most count values in total */
         o = out_alloc(mulsz(count, 4));
@@ -224,7 +237,7 @@ static void run_case(const kase* k, result* r, size_t* a0, size_t* a1) {
         BEGIN(); int64_t got = carquet_rle_decode_levels(in, n, (int)k->p, o.p, count); END();
         if (got < 0) RES("ERR %" PRId64, got);
         else if (got > (count > 0 ? count : 0)) RES("VIOL count-exceeds-max %" PRId64 " > %" PRId64, got, count);
-        else RES("OK %" PRId64, got);
+        else { char vb[700]; vals_i16(vb, sizeof vb, o.p, got); RES("OK %" PRId64 "%s", got, vb); }
     } else if (!strcmp(op, "rle_levels_pref")) {
         o = out_alloc(mulsz(count, 2));
         size_t used = (size_t)-1;
@@ -232,7 +245,7 @@ static void run_case(const kase* k, result* r, size_t* a0, size_t* a1) {
         if (got < 0) { if (used != 0) RES("VIOL consumed-nonzero-on-error %zu", used); else RES("ERR %" PRId64, got); }
         else if (got > (count > 0 ? count : 0)) RES("VIOL count-exceeds-max %" PRId64 " > %" PRId64, got, count);
         else if (used > n) RES("VIOL consumed-exceeds-input %zu > %zu", used, n);
-        else RES("OK %" PRId64 " %zu", got, used);
+        else { char vb[700]; vals_i16(vb, sizeof vb, o.p, got); RES("OK %" PRId64 " %zu%s", got, used, vb); }
     } else if (!strncmp(op, "plain_", 6)) {
         const char* t = op + 6;
         size_t es = !strcmp(t, "bool") ? 1 : !strcmp(t, "i32") || !strcmp(t, "f32") ? 4 :
@@ -463,7 +476,7 @@ static void worker_main(int fd_in, int fd_out) {
             run_case(&k2, &r2, &b0, &b1);
             if (b1 > b0) {
                 char first[32]; sscanf(r.line, "%31s", first);
-                snprintf(r.line, sizeof r.line, "VIOL leak %zu bytes-left-allocated after=%s", b1 - b0, first);
+                snprintf(r.line, 512, "VIOL leak %zu bytes-left-allocated after=%s", b1 - b0, first);
             }
         }
         free(copy);
@@ -564,7 +577,7 @@ int main(int argc, char** argv) {
         h_line[L] = '\n';
         ssize_t wr = write(to_w, h_line, L + 1);
         h_line[L] = 0;
-        char ans[1024]; size_t got = 0; int done = 0, dead = 0, wall = 0;
+        char ans[2048]; size_t got = 0; int done = 0, dead = 0, wall = 0;
         if (wr != (ssize_t)(L + 1)) dead = 1;
         while (!done && !dead) {
             struct pollfd pf = {from_w, POLLIN, 0};
